@@ -281,6 +281,7 @@ type sysB struct {
 	cur       string // current kind of schema "s": mif1 mif2 mif0 tb exempt absent
 	strat     string // its strategy field ("" local globalCount): not a limit, editing it must not touch the accounting
 	other     bool
+	global    bool // the max-in-flight schema also carries the (larger) global member: local mode / local fallback go by the local max all the same
 	epoch     int
 	reqs      []request
 }
@@ -323,6 +324,9 @@ func (s *sysB) apply() {
 	}
 	for i := range sch {
 		sch[i].Strategy = proxyv1alpha1.LimitStrategy(s.strat)
+		if s.global && sch[i].MaxRequestsInflight != nil {
+			sch[i].GlobalMaxRequestsInflight = &proxyv1alpha1.MaxRequestsInflightFlowControlSchema{Max: 10}
+		}
 	}
 	if s.other {
 		sch = append(sch, mif("S", 1))
@@ -369,7 +373,7 @@ func specBMode(mode string) xstate.Spec {
 					evs = append(evs, "strategy "+st)
 				}
 			}
-			evs = append(evs, "toggle-other", "exhaust-other", "exhaust-other-cluster")
+			evs = append(evs, "toggle-other", "toggle-global-member", "exhaust-other", "exhaust-other-cluster")
 			return evs
 		},
 		Apply: func(si interface{}, e string) error {
@@ -392,6 +396,9 @@ func specBMode(mode string) xstate.Spec {
 				s.apply()
 			case "toggle-other":
 				s.other = !s.other
+				s.apply()
+			case "toggle-global-member":
+				s.global = !s.global
 				s.apply()
 			case "exhaust-other", "exhaust-other-cluster":
 				// exhausting another schema / the same schema of another cluster must not cause a rejection here
@@ -504,7 +511,7 @@ func specBMode(mode string) xstate.Spec {
 					fc.Release()
 				}
 			}
-			return fmt.Sprint(s.cur, s.strat, s.other, open, free)
+			return fmt.Sprint(s.cur, s.strat, s.other, s.global, open, free)
 		},
 		Close: func(si interface{}) {
 			s := si.(*sysB)
